@@ -497,6 +497,13 @@ fn native_enum_multi_equals_paths_on_real_tries() {
                     let pv = &proofs[covering[i]].1;
                     assert!(vm.confirm_nonexistence(k).ok() == pv.confirm_nonexistence(k).ok() && vm.confirm_nonexistence(k).is_ok(), "multi-proof and path proof disagree on non-existence of key {} (key set {:#09b}, proofs {:#b})", i, mask, q);
                     assert!(vm.confirm_value(&leaf).ok() == pv.confirm_value(&leaf).ok() && vm.confirm_value(&leaf).is_ok(), "multi-proof and path proof disagree on the value of key {} (key set {:#09b}, proofs {:#b})", i, mask, q);
+                    // ... also when the claimed value is the one stored in the leaf the key lands on
+                    // (an absent key must not borrow its neighbour's value)
+                    if let Some(t) = pv.terminal() {
+                        let borrowed = LeafData { key_path: *k, value_hash: t.value_hash };
+                        assert!(vm.confirm_value(&borrowed).ok() == pv.confirm_value(&borrowed).ok(), "multi-proof and path proof disagree on key {} claimed with the value of the leaf it lands on (key set {:#09b}, proofs {:#b})", i, mask, q);
+                        assert!(pv.confirm_value(&borrowed).ok() == Some(t.key_path == *k), "a path proof confirms a value for a key other than its leaf's");
+                    }
                 } else {
                     assert!(vm.confirm_nonexistence(k).is_err() && vm.confirm_value(&leaf).is_err(), "multi-proof answers for key {} which none of its paths covers (key set {:#09b}, proofs {:#b})", i, mask, q);
                 }
